@@ -13,7 +13,7 @@ import itertools
 import numpy as np
 import z3
 
-from checks import l2
+from checks import l1, l2
 from symx import core, facade, stubs
 from symx.core import AND, IFF, IMPLIES, ITE, NOT, OR, SBool, SReal, is_sym, smax
 
@@ -186,7 +186,7 @@ def h_seq(shape):
                 tgt = set(seq._schedule[name][-1].targets)
                 refs = {q: seq._basis_ref[basis][q].phase.last_phase for q in tgt}
                 seq.add_eom_pulse(name, op[2], prog_phase, post_phase_shift=post)
-                sl = [x for x in seq._schedule[name].slots if hasattr(x.type, "phase") and not seq._schedule[name].is_detuned_delay(x.type)][-1]
+                sl = [x for x in seq._schedule[name].slots if hasattr(x.type, "phase") and not l1.ref_is_detuned_delay(x.type)][-1]
                 obs.append(("k2:pulse_phase_is_programmed_plus_ref", congruent(facade._unwrap0(sl.type.phase), prog_phase + refs[sorted(tgt)[0]])))
                 if op[3]:
                     for q in tgt:
